@@ -39,3 +39,19 @@ Print Assumptions C06_gzw_roundtrip.
 Theorem C06_zlw_roundtrip : zlw_roundtrip_statement.
 Proof. exact zlw_roundtrip. Qed.
 Print Assumptions C06_zlw_roundtrip.
+
+(* ---- on the faithful model of the gzip/zlib READERS (RModel/GzEngine.v: ungzip.go and zlib/reader.go
+   transcribed function by function on top of the engine model, one bufio buffer shared with the
+   decompressor): what the Reads hand out is a prefix of the payload the container specification
+   (Containers.gz_read / zl_read) assigns to the input; io.EOF only when the specification accepts
+   the container, and then exactly its payload; the Header fields are those of the first member. *)
+From Verif Require Import Engine EngineCorollaries GzEngine GzEngineSpec GzEngineTop.
+Theorem C06_gz_reader_sound : gz_sound_statement.
+Proof. exact gz_sound. Qed.
+Print Assumptions C06_gz_reader_sound.
+Theorem C06_gz_reader_header_fields : gz_header_fields_statement.
+Proof. exact gz_header_fields. Qed.
+Print Assumptions C06_gz_reader_header_fields.
+Theorem C06_zl_reader_sound : zl_sound_statement.
+Proof. exact zl_sound. Qed.
+Print Assumptions C06_zl_reader_sound.
